@@ -106,6 +106,21 @@ fn c02_grid(tier: Tier) -> Vec<Program> {
             .collect();
         out.push(Program { keys: vec![format!("generations-{variant}"), "idle".into()], blobs: vec![Blob::new(3, 1), Blob::new(4, 2), Blob::new(5, 3)], steps });
     }
+    // values whose digest starts with three zero bytes (`AAAA…` in base64, `000000…` in hex),
+    // stored under the algorithm in question through every entry point
+    for mi in 0..blob::MINED.len() {
+        let (mb, malgo) = Blob::mined(mi);
+        for fl in [Fl::Sync, Fl::Async] {
+            for (entry, keyed, chunks) in [(WEntry::OneShotAlgo, true, vec![]), (WEntry::OneShotAlgo, false, vec![]), (WEntry::Opts, true, vec![3, 4]), (WEntry::CreateAlgo, true, vec![1])] {
+                let mut s = WriteSpec::simple(if keyed { Some(0) } else { None }, 0);
+                s.entry = entry;
+                s.algo = malgo;
+                s.chunks = chunks;
+                // the key held another value before
+                out.push(Program { keys: keys.clone(), blobs: vec![mb.clone(), Blob::new(5, 3)], steps: vec![Step { op: Op::Write(WriteSpec::simple(Some(0), 1)), fl: Fl::Sync }, Step { op: Op::Write(s), fl }] });
+            }
+        }
+    }
     // single chunks of tens of MiB (more than any sensible per-call cap of an I/O layer)
     let big = tier.pick((1usize << 25) + 4097, (1usize << 27) + 1);
     for (bi, (entry, chunks, fl)) in [(WEntry::OneShotAlgo, vec![], Fl::Sync), (WEntry::OneShotAlgo, vec![], Fl::Async), (WEntry::Opts, vec![5, big - 5], Fl::Sync), (WEntry::Opts, vec![big], Fl::Async)].into_iter().enumerate() {
@@ -235,7 +250,7 @@ pub fn c02() -> ProgEngine {
     ProgEngine {
         id: "C02",
         rule: "a fixed grid (5 algorithms x boundary lengths incl. 0, 1, 8 KiB±1 and the 1 MiB mmap threshold -1/0/+1 x every write entry point x \
-               declared/undeclared size x 3 chunkings with empty, single-byte and decreasing chunks), values with long zero runs, single chunks of 32 MiB+ (128 MiB+ in the thorough tier), hundreds of generations of one key, plus random writes with hostile keys; oracle: the call \
+               declared/undeclared size x 3 chunkings with empty, single-byte and decreasing chunks), values with long zero runs, mined values whose digest starts with three zero bytes, single chunks of 32 MiB+ (128 MiB+ in the thorough tier), hundreds of generations of one key, plus random writes with hostile keys; oracle: the call \
                succeeds and returns the model digest (sha1/sha2/xxhash crates, own base64), then read_sync, read, SyncReader/Reader+check (consumed by small reads / one read_to_end into a non-empty vector / one read_exact) by key and \
                read_hash_sync, read_hash, exists by the RETURNED address all give back exactly the bytes. Non-trivial = >=2 chunks, or declared size, or \
                length in {0,1,2^20-1,2^20,2^20+1,>2^20}, or a non-alphanumeric key, or algorithm != SHA-256; distinct = distinct case",
